@@ -57,6 +57,9 @@ class _TextCueParser:
     self.parent: model.ContentElement = paragraph
     self.paragraph: model.P = paragraph
 
+    # name of every open tag, with the element to return to when it is closed
+    self.open_tags: typing.List[typing.Tuple[str, model.ContentElement]] = []
+
     # begin, relative to the cue, of the text that follows the last timestamp tag
     self.begin: typing.Optional[Fraction] = None
 
@@ -88,6 +91,8 @@ class _TextCueParser:
   def _handle_starttag(self, token: StartTagToken):
 
     tag = token.tag.lower()
+
+    self.open_tags.append((tag, self.parent))
 
     if tag.startswith("ruby"):
       if self.ruby_rbc is not None or self.ruby_rtc is not None:
@@ -153,16 +158,25 @@ class _TextCueParser:
       LOGGER.warning("Unknown tag %s at line %s", tag, self.line_num)
       return
 
-  def _handle_endtag(self, _token: EndTagToken):
+  def _handle_endtag(self, token: EndTagToken):
 
-    if isinstance(self.parent, model.Ruby):
-      self.ruby_rbc = None
-      self.ruby_rtc = None
-    elif isinstance(self.parent, (model.Rt, model.Rb)):
-      # this is needed since <rb> and <rt> are nested in <rbc> and <rtc>
-      self.parent = self.parent.parent()
+    tag = token.tag.lower()
 
-    self.parent = self.parent.parent()
+    if len(self.open_tags) > 0 and self.open_tags[-1][0] == tag:
+      count = 1
+    elif len(self.open_tags) > 1 and self.open_tags[-2][0] == tag and \
+      isinstance(self.parent, model.Rt) and isinstance(self.open_tags[-1][1], model.Ruby):
+      # the end tag of a ruby element also closes its open <rt>
+      count = 2
+    else:
+      LOGGER.warning("Ignoring unmatched end tag %s at line %s", tag, self.line_num)
+      return
+
+    for _ in range(count):
+      if isinstance(self.parent, model.Ruby):
+        self.ruby_rbc = None
+        self.ruby_rtc = None
+      self.parent = self.open_tags.pop()[1]
 
   def _handle_string(self, token: StringToken):
     lines = token.value.split("\n")
